@@ -98,6 +98,10 @@ pub struct World {
     pub deadlock: Option<ReadRec>,
     pub fault_ev: Option<u64>,
     pub fault_op: Option<OpKind>,
+    /// (operation index, bytes visible to the client afterwards) of every successful flush (first 4096)
+    pub flush_log: Vec<(u64, usize)>,
+    /// operation index of the last read() the server issued
+    pub last_read_idx: Option<u64>,
     pub read_log: Vec<ReadRec>,
     pub log_reads: bool,
     pub write_sizes_max: usize,
@@ -131,6 +135,8 @@ impl World {
             deadlock: None,
             fault_ev: None,
             fault_op: None,
+            flush_log: vec![],
+            last_read_idx: None,
             read_log: vec![],
             log_reads: true,
             write_sizes_max: 0,
@@ -228,6 +234,7 @@ impl Read for MemTransport {
             return Err(e);
         }
         w.nread += 1;
+        w.last_read_idx = Some(w.nops - 1);
         let rel = w.released();
         let avail = rel.saturating_sub(w.pos);
         let rec = ReadRec { ev, pos: w.pos, n: 0, pending: w.pending.len(), visible: w.visible.len() };
@@ -295,6 +302,9 @@ impl Write for MemTransport {
             std::mem::swap(&mut w.visible, &mut w.pending);
         } else {
             w.visible.append(&mut w.pending);
+        }
+        if w.flush_log.len() < 4096 {
+            w.flush_log.push((w.nops - 1, w.visible.len()));
         }
         Ok(())
     }
